@@ -38,8 +38,8 @@ struct Gen { name: String, m: M4, rotation: bool }
 fn generators() -> Vec<Gen> {
     let mut g: Vec<Gen> = vec![];
     let mut push = |name: String, m: M4, rotation: bool| g.push(Gen { name, m, rotation });
-    for t in [vec3(1.0, 2.0, 3.0), vec3(-1000.0, 0.0, 0.5)] { push(format!("translate{:?}", t.0), translate(t), false); }
-    for s in [vec3(2.0, 2.0, 2.0), vec3(1.0, -2.0, 0.5), vec3(-1.0, -1.0, -1.0), vec3(1e-2, 1.0, 1e1), vec3(0.05, 0.05, 0.05)] { push(format!("scale{:?}", s.0), scale(s), false); }
+    for t in [vec3(1.0, 2.0, 3.0), vec3(-1000.0, 0.0, 0.5), vec3(300.0, -400.0, 500.0)] { push(format!("translate{:?}", t.0), translate(t), false); }
+    for s in [vec3(2.0, 2.0, 2.0), vec3(1.0, -2.0, 0.5), vec3(-1.0, -1.0, -1.0), vec3(1e-2, 1.0, 1e1), vec3(0.05, 0.05, 0.05), vec3(1e-4, 1e-4, 1e-4), vec3(300.0, 300.0, 300.0)] { push(format!("scale{:?}", s.0), scale(s), false); }
     for a in [0.0f32, 30.0, 90.0, 180.0, 270.0, -45.0, 1.0, 1e4, 120.0, 90.001, -89.99, 86445.0, -123456.7] {
         push(format!("rotate_x({a})"), rotate_x(degs(a)), true);
         push(format!("rotate_y({a})"), rotate_y(degs(a)), true);
